@@ -145,7 +145,7 @@ theorem stepThread_len {c : Cfg} {s s' : State} {t : Tid} {tok : Tok} {spur : Bo
     unfold stepTkt at h; dsimp only at h
     simp only [Option.some.injEq, Prod.mk.injEq] at h; obtain ⟨hres, -⟩ := h; subst hres
     simp only [State.setTh, if_true]
-    apply waitOrGo_len hcar
+    refine waitOrGo_len (by exact hcar) ?_
     intro hd
     simp only at hd ⊢
     have hp := (hL.2.2 (by simp [hpc]) hd).1 hpc
@@ -162,7 +162,7 @@ theorem stepThread_len {c : Cfg} {s s' : State} {t : Tid} {tok : Tok} {spur : Bo
         · simp at h
         · simp only [Option.some.injEq, Prod.mk.injEq] at h; obtain ⟨hres, -⟩ := h; subst hres
           simp only [State.setTh, if_true]
-          apply waitOrGo_len hcar
+          refine waitOrGo_len (by exact hcar) ?_
           intro hd
           exact (hL.2.2 (by simp [hpc]) hd).2.2.2.2 (Or.inl hpc)
       · simp only [Option.some.injEq, Prod.mk.injEq] at h; obtain ⟨hres, -⟩ := h; subst hres
@@ -181,7 +181,7 @@ theorem stepThread_len {c : Cfg} {s s' : State} {t : Tid} {tok : Tok} {spur : Bo
     unfold stepFAcq at h
     simp only [Option.some.injEq, Prod.mk.injEq] at h; obtain ⟨hres, -⟩ := h; subst hres
     simp only [State.setTh, if_true]
-    apply enterCb_len hcar
+    refine enterCb_len (by exact hcar) ?_
     intro hd
     have := (hL.2.2 (by simp [hpc]) hd).2.2.2.2 (by simp [hpc])
     simp only at hd ⊢; omega
@@ -193,7 +193,7 @@ theorem stepThread_len {c : Cfg} {s s' : State} {t : Tid} {tok : Tok} {spur : Bo
     · simp at h
     · simp only [Option.some.injEq, Prod.mk.injEq] at h; obtain ⟨hres, -⟩ := h; subst hres
       simp only [State.setTh, if_true]
-      apply enterCb_len hcar
+      refine enterCb_len (by exact hcar) ?_
       intro hd
       have := (hL.2.2 (by simp [hpc]) hd).2.1 hpc
       simp only [List.length_append, List.length_cons, List.length_nil] at hd ⊢; omega
@@ -247,5 +247,45 @@ theorem stepThread_len {c : Cfg} {s s' : State} {t : Tid} {tok : Tok} {spur : Bo
   · unfold stepSCas at h; lenleaves h hL
   · unfold stepSCb at h; lenleaves h hL
   · unfold stepSPub at h; lenleaves h hL
+
+
+theorem callOp_len {c : Cfg} {s s' : State} {t : Tid} {op : Op} (h : callOp c s t op = some s') (hL : LenOK c (s.th t)) :
+    LenOK c (s'.th t) := by
+  unfold callOp at h; dsimp only at h
+  split at h
+  · simp at h
+  · rename_i hidle
+    have hidle' : (s.th t).pc = .idle := by simpa using hidle
+    have hpg : (s.th t).pages = [] := hL.1 (Or.inr (Or.inr hidle'))
+    have hcar : (s.th t).carry = [] := hL.carry_nil (by simp [hidle']) (by simp [hidle'])
+    cases op <;> dsimp only at h <;> (repeat' split at h) <;> (try (simp at h; done)) <;>
+      simp only [Option.some.injEq] at h <;> subst h <;>
+      simp_all [LenOK, popLen, State.setTh, startAlloc, startDealloc]
+
+theorem retOp_len {c : Cfg} {s s' : State} {t : Tid} (h : retOp c s t = some s') : LenOK c (s'.th t) := by
+  unfold retOp at h; dsimp only at h
+  split at h
+  · simp at h
+  · simp only [Option.some.injEq] at h; subst h
+    simp [LenOK, State.setTh]
+
+/-- the length bookkeeping holds for every thread in every reachable state -/
+theorem reach_len {c : Cfg} {s : State} (hcap : 0 < c.cap) (h : Reach c s) : ∀ t, LenOK c (s.th t) := by
+  refine Reachable.invariant (fun s => ∀ t, LenOK c (s.th t)) ?_ ?_ s h
+  · intro s hs; subst hs; intro t; simp [LenOK, State.init]
+  · intro s s' hi hst u
+    cases hst with
+    | thread t tok spur l ht hs =>
+      by_cases e : u = t
+      · subst e; exact stepThread_len hs hcap (hi u)
+      · rw [(stepThread_delta hs).1 u e]; exact hi u
+    | call t op ht hs =>
+      by_cases e : u = t
+      · subst e; exact callOp_len hs (hi u)
+      · rw [(callOp_delta hs).1 u e]; exact hi u
+    | ret t ht hs =>
+      by_cases e : u = t
+      · subst e; exact retOp_len hs
+      · rw [(retOp_delta hs).1 u e]; exact hi u
 
 end Babylon.Pages
